@@ -3,6 +3,7 @@ package main
 // C05 - source positioned exactly at stream end; C11 - no waiting for input that is not needed; C09 - output independent of Write sizes.
 
 import (
+	"go/ast"
 	"go/token"
 	"go/types"
 	"sort"
@@ -267,18 +268,58 @@ func isByteReaderIface(t types.Type) bool {
 }
 
 func ruleR05_1(p *Program, r *Report) {
-	r.Expect("R05.1", 6)
+	r.Expect("R05.1", 4)
+	// Findings are keyed by the API entry through which a caller's reader reaches the wrapping call (the constructor
+	// or Reset method a user calls), not by the function the call happens to sit in: moving the source set-up into a
+	// helper shared by NewReader and Reset leaves the keys as they are, a new entry that wraps is a new key.
+	type verdict struct {
+		sites                 int
+		okBufio, okByteReader bool
+		atBufio, atByte       string
+		internalOnly          bool
+	}
 	for _, rel := range readerPkgs() {
 		sp := p.Pkg(rel)
 		if sp == nil {
 			r.Undecided("R05.1", rel, "-", "package loaded", "missing")
 			continue
 		}
+		// static callers inside the package
+		callers := map[*ssa.Function][]*ssa.Function{}
+		for _, g := range p.Funcs() {
+			if g.Pkg != sp {
+				continue
+			}
+			for _, c := range allCalls(g) {
+				if h := c.Common().StaticCallee(); h != nil && h.Pkg == sp && h != g {
+					callers[h] = append(callers[h], g)
+				}
+			}
+		}
+		isEntry := func(f *ssa.Function) bool {
+			return ast.IsExported(f.Name()) || f.Name() == "Reset" || strings.HasPrefix(f.Name(), "New")
+		}
+		var entriesOf func(f *ssa.Function, depth int, seen map[*ssa.Function]bool) []*ssa.Function
+		entriesOf = func(f *ssa.Function, depth int, seen map[*ssa.Function]bool) []*ssa.Function {
+			if isEntry(f) || depth > 3 || seen[f] {
+				return []*ssa.Function{f}
+			}
+			seen[f] = true
+			var out []*ssa.Function
+			for _, g := range callers[f] {
+				out = append(out, entriesOf(g, depth+1, seen)...)
+			}
+			if len(out) == 0 {
+				return []*ssa.Function{f}
+			}
+			return out
+		}
+		res := map[string]*verdict{}
+		pos := map[string]string{}
 		for _, fn := range p.Funcs() {
 			if fn.Pkg != sp {
 				continue
 			}
-			lab := newLabeler()
 			for _, c := range allCalls(fn) {
 				f := c.Common().StaticCallee()
 				var rd ssa.Value
@@ -290,7 +331,6 @@ func ruleR05_1(p *Program, r *Report) {
 				default:
 					continue
 				}
-				base := shortFn(fn) + "|" + lab.get(calleeLabel(c))
 				// the wrapped reader must be caller-supplied (a parameter) for the rule to apply
 				callerSupplied := false
 				for _, leaf := range p.valueSources(rd) {
@@ -298,15 +338,43 @@ func ruleR05_1(p *Program, r *Report) {
 						callerSupplied = true
 					}
 				}
-				if !callerSupplied {
-					r.OK("R05.1", base+"|internal", p.InstrPos(c), "buffer around a reader that is not the caller's")
-					continue
+				for _, e := range entriesOf(fn, 0, map[*ssa.Function]bool{}) {
+					k := shortFn(e)
+					v := res[k]
+					if v == nil {
+						v = &verdict{okBufio: true, okByteReader: true, internalOnly: true}
+						res[k] = v
+						pos[k] = p.InstrPos(c)
+					}
+					v.sites++
+					if !callerSupplied {
+						continue
+					}
+					v.internalOnly = false
+					if !failedAssert(c, rd, isBufioReaderPtr) {
+						v.okBufio = false
+						v.atBufio = p.InstrPos(c)
+					}
+					if !failedAssert(c, rd, isByteReaderIface) {
+						v.okByteReader = false
+						v.atByte = p.InstrPos(c)
+					}
 				}
-				a := failedAssert(c, rd, isBufioReaderPtr)
-				r.Check(a, "R05.1", base+"|not *bufio.Reader", p.InstrPos(c), "a private read-ahead buffer is put in front of the caller's reader only when it is known not to be a *bufio.Reader", "a caller-supplied *bufio.Reader can reach this call: bufio.NewReader re-wraps any reader smaller than the default size, and the second buffer's read-ahead cannot be given back")
-				b := failedAssert(c, rd, isByteReaderIface)
-				r.Check(b, "R05.1", base+"|not io.ByteReader", p.InstrPos(c), "a private read-ahead buffer is put in front of the caller's reader only when it is known not to be an io.ByteReader", "an io.ByteReader (bytes.Reader, bytes.Buffer, strings.Reader) reaches this call and is drained up to 4096 bytes beyond the end of the stream")
 			}
+		}
+		var rk []string
+		for k := range res {
+			rk = append(rk, k)
+		}
+		sort.Strings(rk)
+		for _, k := range rk {
+			v := res[k]
+			if v.internalOnly {
+				r.OK("R05.1", k+"|internal", pos[k], "buffers only around readers that are not the caller's")
+				continue
+			}
+			r.Check(v.okBufio, "R05.1", k+"|not *bufio.Reader", pos[k], "through this entry a private read-ahead buffer is put in front of the caller's reader only when it is known not to be a *bufio.Reader ("+itoa(v.sites)+" wrapping calls)", "a caller-supplied *bufio.Reader can reach the wrapping call at "+v.atBufio+": bufio.NewReader re-wraps any reader smaller than the default size, and the second buffer's read-ahead cannot be given back")
+			r.Check(v.okByteReader, "R05.1", k+"|not io.ByteReader", pos[k], "through this entry a private read-ahead buffer is put in front of the caller's reader only when it is known not to be an io.ByteReader ("+itoa(v.sites)+" wrapping calls)", "an io.ByteReader (bytes.Reader, bytes.Buffer, strings.Reader) reaches the wrapping call at "+v.atByte+" and is drained up to 4096 bytes beyond the end of the stream")
 		}
 	}
 }
